@@ -165,6 +165,9 @@ def reach_avoiding(body, start_bbs, barrier_bbs, cut_edges=frozenset()):
     return seen
 
 
+PASS_THROUGH = re.compile(r"(Instrument::instrument|Instrument::in_current_span|FutureExt::(boxed|map|then|fuse|inspect|map_err|map_ok)|TryFutureExt::(map_err|map_ok|and_then|into_future|err_into)|std::boxed::Box::<T>::pin|assert_send)$")
+
+
 def await_ready_block(body, fut_local, max_hops=12):
     """Settlement point of an awaited future: follow `fut_local` through moves and
     IntoFuture::into_future / Pin::new_unchecked to the `Future::poll` call of the await
@@ -188,7 +191,7 @@ def await_ready_block(body, fut_local, max_hops=12):
             t = bl.get("t")
             if t and t["k"] == "call":
                 names = F.callee_names(t)
-                if any(n.endswith("IntoFuture::into_future") or n.endswith("Pin::<Ptr>::new_unchecked") or n.endswith("Pin::<Ptr>::new") or n.endswith("as_mut") for n in names):
+                if any(n.endswith("IntoFuture::into_future") or n.endswith("Pin::<Ptr>::new_unchecked") or n.endswith("Pin::<Ptr>::new") or n.endswith("as_mut") or PASS_THROUGH.search(n) for n in names):
                     if t["args"] and F.op_local(t["args"][0]) in cur:
                         nxt.add(t["d"][0])
                 if any(n.endswith("Future::poll") for n in names) and t["args"] and F.op_local(t["args"][0]) in cur and t.get("x", "").startswith("d:Await"):
@@ -323,7 +326,7 @@ def field_names_in(e):
     out = set()
     if not isinstance(e, tuple):
         return out
-    if e[0] in ("arg", "place"):
+    if e[0] in ("arg", "place", "upvar"):
         out |= {x for x in e[2:] if isinstance(x, str)}
     elif e[0] == "proj":
         out |= {x for x in e[2:] if isinstance(x, str)}
@@ -394,3 +397,59 @@ def upvar_name(body, idx):
             if fs and fs[0][1] == idx and len(fs) == 1:
                 return v["n"]
     return None
+
+
+def local_aliases_fwd(body, local, rounds=8):
+    """locals that receive the value of `local` by plain moves/copies (forward)"""
+    out = {local}
+    for _ in range(rounds):
+        n = len(out)
+        for bb, idx, s in body.iter_assigns():
+            if s["r"]["k"] == "use" and len(s["p"]) == 1 and F.op_local(s["r"]["o"]) in out and len(F.op_place(s["r"]["o"])) == 1:
+                out.add(s["p"][0])
+        if len(out) == n:
+            break
+    return out
+
+
+def question_mark(body, value_local):
+    """If `value_local` (a Result/Option) goes through `?`: returns (branch_bb, continue_bb, break_bb)
+    where continue_bb / break_bb are the first blocks on the Continue / Break edge."""
+    al = local_aliases_fwd(body, value_local)
+    for bb, t in body.calls():
+        fn = F.callee(t)[0] or ""
+        if fn == "std::ops::Try::branch" and t["args"] and F.op_local(t["args"][0]) in al:
+            sw = next_switch(body, t["t"]) if t["t"] is not None else None
+            if sw is None:
+                continue
+            tt = body.term(sw)
+            targets = {int(v): b for v, b in tt["ts"]}
+            cont = targets.get(0)
+            brk = targets.get(1, tt["else"])
+            return bb, cont, brk
+    return None
+
+
+def settled(body, call_bb):
+    """Settlement of the future created by the call at call_bb (directly awaited):
+    {'ready': bb, 'out': local, 'q': (branch_bb, cont_bb, break_bb) or None} or None if it is never polled
+    through an await in this body."""
+    t = body.term(call_bb)
+    if t["k"] != "call" or len(t["d"]) != 1:
+        return None
+    aw = await_ready_block(body, t["d"][0])
+    if aw is None:
+        return None
+    poll_bb, ready_bb, out_local = aw
+    q = question_mark(body, out_local) if out_local is not None else None
+    return {"poll": poll_bb, "ready": ready_bb, "out": out_local, "q": q}
+
+
+def ok_return_blocks(body):
+    """blocks that assign `_0 = Result::Ok{..}` (or Ok via aggregate moved to _0)"""
+    out = []
+    for bb, idx, s in body.iter_assigns():
+        r = s["r"]
+        if s["p"] == [0] and r["k"] == "agg" and r.get("adt") == "std::result::Result" and r.get("vn") == "Ok":
+            out.append(bb)
+    return out
